@@ -4,7 +4,7 @@
    build profiles -- to exactly the hand-written Machine functions that the theorems are about.
    Callee methods are interpreted by their Machine twins (each has its own lemma): the proof is modular. *)
 From Coq Require Import ZArith List String Bool Lia.
-From MV Require Import Ast Eval Scalar Machine Equiv Prims EquivTac.
+From MV Require Import Ast Eval Scalar Machine EquivDefs Prims EquivTac.
 From MV.Gen Require Import AstGen.
 Import ListNotations.
 Open Scope string_scope.
